@@ -848,8 +848,13 @@ class Model:
         else:
             raise ValueError("Response must be of class Response.")
         if all(isinstance(term, ACCEPTED_TERMS) for term in terms):
-            self.common_terms = [term for term in terms if not isinstance(term, GroupSpecificTerm)]
-            self.group_terms = [term for term in terms if isinstance(term, GroupSpecificTerm)]
+            # A model is a set of terms: a term passed more than once is kept once
+            self.common_terms = []
+            self.group_terms = []
+            for term in terms:
+                target = self.group_terms if isinstance(term, GroupSpecificTerm) else self.common_terms
+                if term not in target:
+                    target.append(term)
         else:
             raise ValueError("There is a least one term of an unexpected class.")
 
